@@ -394,7 +394,10 @@ def _exec_loss(case, mon):
             sets.append([float(x) for x in rates])
         p = _softmax64(lp64[n])
         cands = []
-        for choice in itertools.islice(itertools.product(*sets), 4096):
+        if math.prod(len(x) for x in sets) > 20000:
+            mon.ambiguous("admissible-rate-combinations-not-enumerable")
+            return
+        for choice in itertools.product(*sets):
             mu = sum(choice) / M if case["sub_avg"] else 0.0
             cands.append([p[m] * (choice[m] - mu) for m in range(M)])
         row_cands.append(cands)
@@ -414,12 +417,25 @@ def _exec_loss(case, mon):
             mon.check(ok and all(x == x for x in g), "loss-value", observed=g,
                       admissible=row_cands[n][:8], n=n, log_probs=lp64[n], reduction=red)
     else:
+        row_sums = [sorted({round(sum(c), 12) for c in cands}) for cands in row_cands]
+        space = 1
+        for rs in row_sums:
+            space *= len(rs)
+        if space > 200000:
+            # too many admissible totals to enumerate: let the real function's own unreduced output
+            # (judged row by row as above) select the admissible assignment it used
+            mon.stat("loss_total_via_unreduced_hint")
+            none = _call_loss(mon, dict(case, reduction="none"), lp, ref, hyp).double()
+            row_sums = []
+            for n in range(N):
+                gn = none[n].tolist()
+                match = [cand for cand in row_cands[n] if all(near(gn[m], cand[m]) for m in range(M))]
+                mon.check(bool(match), "loss-value", observed=gn, admissible=row_cands[n][:8], n=n,
+                          log_probs=lp64[n], reduction="none (hint for %s)" % red)
+                row_sums.append(sorted({round(sum(c), 12) for c in match}))
         totals = {0.0}
-        for cands in row_cands:
-            sums = {round(sum(c), 12) for c in cands}
-            totals = {round(t + s, 12) for t in totals for s in sums}
-            if len(totals) > 20000:
-                break
+        for rs in row_sums:
+            totals = {round(t + x, 12) for t in totals for x in rs}
         if red == "mean":
             totals = {t / (N * M) for t in totals}
         g = float(got)
@@ -427,7 +443,12 @@ def _exec_loss(case, mon):
         if ok:
             mon.dev("loss-value(fraction of tolerance)",
                     min(abs(g - t) / (5e-7 + 5e-6 * abs(t)) for t in totals), 1.0)
-        mon.check(ok and g == g, "loss-value", observed=g, admissible=sorted(totals)[:8], reduction=red)
+        if not ok and space > 200000 and g == g:
+            # the hinted assignment does not explain the total, and the full set of admissible totals
+            # was not enumerated: undecided rather than an alarm
+            mon.ambiguous("loss-total-not-enumerable")
+        else:
+            mon.check(ok and g == g, "loss-value", observed=g, admissible=sorted(totals)[:8], reduction=red)
     if not nontrivial:
         mon.trivial()
 
